@@ -1161,8 +1161,8 @@ fn reuse_step(imp: Imp, p: &[u8], s: &RState, op: &Search, cc: &mut CaseCtx) -> 
 
 fn reuse_searches(tier: Tier, m: usize) -> Vec<Search> {
     let _ = tier;
-    let texts: Vec<&[u8]> = vec![b"", b"ab", b"abab", b"bbaabab", b"aaaaaaaaabaa", b"babababababababaabab"];
-    let mut ks = vec![0u64, 1, 3, m as u64 + 1];
+    let texts: Vec<&[u8]> = vec![b"", b"ab", b"abab", b"bbaabab", b"aaaaaaaaabaa", b"babababababababaabab", b"aabababababababaabbabababbabababababaabaab"];
+    let mut ks = vec![0u64, 1, 3, m as u64, m as u64 + 1];
     ks.sort();
     ks.dedup();
     let mut out = vec![];
@@ -1178,8 +1178,9 @@ fn reuse_searches(tier: Tier, m: usize) -> Vec<Search> {
 
 fn reuse_patterns(tier: Tier) -> Vec<&'static [u8]> {
     match tier {
-        Tier::Quick => vec![b"ab", b"abab", b"aaaaaaaab"],
-        Tier::Thorough => vec![b"a", b"ab", b"abab", b"aaaaaaab", b"aaaaaaaab", b"abababababababaab"],
+        // 17 and 26 symbols = 3 and 4 blocks of the u8 block-based matcher
+        Tier::Quick => vec![b"ab", b"abab", b"aaaaaaaab", b"abababababababaab"],
+        Tier::Thorough => vec![b"a", b"ab", b"abab", b"aaaaaaab", b"aaaaaaaab", b"abababababababaab", b"abababababababaabbabababba"],
     }
 }
 
